@@ -1,0 +1,31 @@
+//go:build verif
+
+package gc
+
+import (
+	"k8s.io/client-go/kubernetes"
+	"tkestack.io/galaxy/pkg/api/docker"
+)
+
+// VerifNewFlannelGC builds the real flannelGC with explicit directories, clients and port-clean callback instead of
+// the command line flags; nothing is started.
+func VerifNewFlannelGC(kubeCli kubernetes.Interface, dockerCli *docker.DockerInterface, allocatedIPDirs, gcDirs []string,
+	cleanPortFunc func(containerID string) error) *flannelGC {
+	return &flannelGC{
+		allocatedIPDir: allocatedIPDirs,
+		gcDirs:         gcDirs,
+		kubeCli:        kubeCli,
+		dockerCli:      dockerCli,
+		quit:           make(chan struct{}),
+		cleanPortFunc:  cleanPortFunc,
+	}
+}
+
+// VerifCleanupIPOnce runs one pass of cleanupIP.
+func (gc *flannelGC) VerifCleanupIPOnce() error { return gc.cleanupIP() }
+
+// VerifCleanupGCDirsOnce runs one pass of cleanupGCDirs.
+func (gc *flannelGC) VerifCleanupGCDirsOnce() error { return gc.cleanupGCDirs() }
+
+// VerifShouldCleanup exposes shouldCleanup.
+func (gc *flannelGC) VerifShouldCleanup(cid string) bool { return gc.shouldCleanup(cid) }
